@@ -133,7 +133,7 @@ func (s *Refspec) DstForRef(p string) string {
 			return dst
 		}
 		return ""
-	} else if p[:s.srcStarInd] != src[:s.srcStarInd] {
+	} else if len(p) < s.srcStarInd || p[:s.srcStarInd] != src[:s.srcStarInd] {
 		return ""
 	}
 	return dst[:s.dstStarInd] + p[s.srcStarInd:]
@@ -176,16 +176,24 @@ func isGlobPattern(s string) (int, error) {
 func (s *Refspec) UnmarshalText(text []byte) error {
 	off := 0
 	n := len(text)
-	if text[0] == '+' {
+	if n == 0 {
+		return fmt.Errorf("empty refspec")
+	}
+	if text[off] == '+' {
 		s.Force = true
 		off += 1
 	}
-	if text[0] == '^' {
+	if off < n && text[off] == '^' {
 		s.Negate = true
 		off += 1
 	}
-	if string(text[off:off+4]) == "tag " {
-		s.tag = string(text[4:])
+	if strings.HasPrefix(string(text[off:]), "tag ") {
+		s.tag = string(text[off+4:])
+		var err error
+		if s.srcStarInd, err = isGlobPattern(s.Src()); err != nil {
+			return err
+		}
+		s.dstStarInd = s.srcStarInd
 		return nil
 	}
 	i := 0
